@@ -27,7 +27,7 @@ type sqlCase struct {
 }
 
 func randStyle(r *core.Rand) model.Style {
-	return model.Style{KwCase: r.Intn(3), WS: r.Intn(3), OptKw: r.Bool(), LimitOffsetSwap: r.Bool(), R: r}
+	return model.Style{KwCase: r.Intn(3), WS: r.Intn(3), OptKw: r.Bool(), LimitOffsetSwap: r.Bool(), ZeroPad: r.Chance(1, 4), R: r}
 }
 
 // runSQLCase creates the tables, runs the queries through the real parse
@@ -476,6 +476,11 @@ func runC07(c *core.Ctx, drv string, idx int) {
 		// order independence: the three permutations must agree with each other
 		for k := 0; k+2 < len(results); k += 3 {
 			if errs[k] != "" || errs[k+1] != "" || errs[k+2] != "" {
+				continue
+			}
+			if q := sc.queries[k]; len(q.GroupBy) > 0 && (q.HasLimit || q.HasOffset) {
+				// which groups fall into the LIMIT/OFFSET window of an
+				// unordered grouped result is not determined by the property
 				continue
 			}
 			c.Count("order_independence_checked", 1)
